@@ -11,6 +11,7 @@
 package c13
 
 import (
+	"path/filepath"
 	"bytes"
 	"context"
 	"encoding/json"
@@ -60,6 +61,9 @@ type world struct {
 	own       uint64
 }
 
+// shortRetention makes every node keep its transaction files for one second only (expiry-snapshot).
+var shortRetention bool
+
 // r2Candidate makes R2 a candidate for the lease (the primary-change scenarios).
 var r2Candidate bool
 
@@ -75,6 +79,9 @@ func newWorld(wal bool, viol func(string, string, ...any), spawn func(func()), t
 			cfg.HaltLockTTL = ttl
 		}
 		cfg.HaltAcquireTimeout = 3 * time.Second
+		if shortRetention {
+			cfg.Retention = time.Second
+		}
 	}
 	cl.AddNode("P", true, nil)
 	cl.AddNode("R1", false, func(cfg *lab.NodeConfig) { cfg.ExitImage = true })
@@ -190,9 +197,10 @@ func run1(t *testing.T, c Case) (res Result) {
 			}
 		}()
 		ttl := time.Duration(0)
-		if c.Scenario == "expiry" || c.Scenario == "expiry-then-commit" {
+		if c.Scenario == "expiry" || c.Scenario == "expiry-then-commit" || c.Scenario == "expiry-snapshot" {
 			ttl = 2 * time.Second
 		}
+		shortRetention = c.Scenario == "expiry-snapshot"
 		r2Candidate = c.Scenario == "primary-change" || c.Scenario == "stale-forward"
 		if r2Candidate {
 			ttl = 8 * time.Second
@@ -458,6 +466,71 @@ func run1(t *testing.T, c Case) (res Result) {
 			}
 			w.checkAll("acquire-timeout")
 			res.Class = "acquire-timeout-ok"
+		case "expiry-snapshot":
+			// The holder is cut off from the primary, the lock expires there, the primary commits and trims its log
+			// (retention), the link heals: the first thing the former holder receives is a snapshot, not the next
+			// transaction. Whatever arrives, it holds nothing any more and must refuse writes.
+			if err := w.acquire(); err != nil {
+				viol("C13/acquire-failed", "acquire: %v", err)
+				return
+			}
+			w.cl.Net.Block("P", "R1")
+			lab.Settle(8 * time.Second)
+			if P.DB("db").VerifHaltLockID() != 0 {
+				viol("C13/halt-not-expired", "the halt lock did not expire on the primary (TTL 2 s, 8 s elapsed)")
+				return
+			}
+			for i := 0; i < 3; i++ {
+				if ok, err, step := w.txOn(P, 20, []uint32{3}); !ok {
+					viol("C13/writer-after-expiry", "after expiry a local transaction on the primary failed at %q: %v", step, err)
+					return
+				}
+				lab.Settle(1500 * time.Millisecond)
+				// the files are older than the retention period (their mtimes are real time, the store's clock is the bubble's)
+				old := time.Now().Add(-time.Hour)
+				for _, name := range mon.ListLTX(P.DB("db").LTXDir()) {
+					_ = os.Chtimes(filepath.Join(P.DB("db").LTXDir(), name), old, old)
+				}
+				_ = P.Store.EnforceRetention(context.Background())
+			}
+			names := mon.ListLTX(P.DB("db").LTXDir())
+			w.cl.Net.Unblock("P", "R1")
+			if ok, why := w.cl.WaitConverged(30*time.Second, nil); !ok {
+				viol("C13/no-convergence/expiry-snapshot", "the former holder did not catch up after the partition: %s (primary log %v)", why, names)
+				return
+			}
+			res.Class = fmt.Sprintf("expiry-snapshot-log=%d", len(names))
+			imgP := w.img
+			posBefore := posOf(R)
+			w2 := pager.NewConn(R.M, "db", 56, ps)
+			var werr error
+			var committed bool
+			if c.WAL {
+				r := w2.RunWTx(pager.WTx{Frames: []uint32{1, 2}, Outcome: "commit"}, imgP)
+				werr, committed = r.Err, r.Committed
+			} else {
+				r := w2.RunRTx(pager.RTx{Mods: []uint32{2}, Final: "DELETE", Outcome: "commit"}, imgP)
+				werr, committed = r.Err, r.Committed
+			}
+			w2.Close()
+			if committed {
+				viol("C07/write-accepted-without-halt", "the former holder (lock expired, caught up through a snapshot) committed a transaction")
+			}
+			if werr == nil || !lab.IsErrno(werr, syscall.EACCES) {
+				viol("C07/write-not-refused-without-halt", "the former holder (lock expired, caught up through a snapshot) did not refuse a write with EACCES: %v", werr)
+			}
+			if posOf(R) != posBefore {
+				viol("C07/position-moved-without-halt", "a write on the former holder moved its position %s -> %s", posBefore, posOf(R))
+			}
+			if !c.WAL {
+				if got, err := oracle.ReadLogicalImage(R.DB("db").Path(), ps); err != nil {
+					viol("C07/image-unreadable-without-halt", "replica image: %v", err)
+				} else if ok, d := got.Equal(imgP); !ok {
+					viol("C07/image-changed-without-halt", "a write on the former holder changed its database file: %s", d)
+				}
+			}
+			w.img = imgP
+			w.checkAll("expiry-snapshot")
 		case "lost-replies":
 			// replies to POST /halt, POST /tx or DELETE /halt are lost once; the client-side operation is retried by the caller
 			drop := []string{"POST /halt", "POST /tx", "DELETE /halt"}[c.Variant%3]
@@ -993,7 +1066,7 @@ func TestCheck(t *testing.T) {
 			cases = append(cases, Case{Scenario: "lost-replies", WAL: wal, Variant: v})
 		}
 		cases = append(cases, Case{Scenario: "lagging-acquire", WAL: wal, Variant: 0}, Case{Scenario: "lagging-acquire", WAL: wal, Variant: 1},
-			Case{Scenario: "acquire-timeout", WAL: wal})
+			Case{Scenario: "acquire-timeout", WAL: wal}, Case{Scenario: "expiry-snapshot", WAL: wal})
 		for v := 0; v < 18; v++ {
 			cases = append(cases, Case{Scenario: "tx-matrix", WAL: wal, Variant: v})
 		}
